@@ -565,7 +565,7 @@ def rand_input(rnd, variant):
         return {"kind": "battery", "psdir": bool(bats) or ac["name"] != "none" or rnd.random() < 0.7,
                 "bats": bats, "ac": ac}
     if kind == "freq":
-        n = rnd.choice([1, 2, 4, 6, 8])
+        n = rnd.choice([1, 2, 4, 6, 8, 12, 24])     # >= 11: cpu10 sorts before cpu2 as text
         off = rnd.choice(["offline-nodir", "offline-dir"])
         cpus = []
         for k in range(n):
